@@ -457,7 +457,7 @@ def sweep(ctx, full=False):
         _run(ctx, "ins", [f"{name}:{lab}"], [spec], seed0)
     if base_ok["ins"]:
         for name, lab, spec in S.all_singles(S.INS_REAL_OPTIONS):
-            _run(ctx, "ins", [f"{name}:{lab}", "real-flows"], [spec, dict(init=dict(max_iteration=2))], seed0, fake_flows=False)
+            _run(ctx, "ins", [f"{name}:{lab}", "real-flows"], [S.REAL_FLOW_TRAINING, spec, dict(init=dict(max_iteration=2))], seed0, fake_flows=False)
     if full:
         # second seed for the singles; pairwise arrays; a few importance-sampler runs with real neural flows
         for name, lab, spec in std:
@@ -476,7 +476,7 @@ def sweep(ctx, full=False):
                 _run(ctx, sampler, labels, specs, 5000 + i, minimise=True)
         for name in ("weighted_kl", "reset_flow", "reparameterisation", "clip", "strict_threshold", "draw_iid_live"):
             lab, spec = S.INS_OPTIONS[name][0]
-            _run(ctx, "ins", [f"{name}:{lab}", "real-flows"], [spec, dict(init=dict(max_iteration=2))], seed0, fake_flows=False)
+            _run(ctx, "ins", [f"{name}:{lab}", "real-flows"], [S.REAL_FLOW_TRAINING, spec, dict(init=dict(max_iteration=2))], seed0, fake_flows=False)
     ctx.extra["sweep_wall_s"] = round(time.time() - t0, 1)
 
 
